@@ -114,6 +114,15 @@ type canonCtx struct {
 	// for the polynomials of the call's arguments, and its local opaque values are kept apart per call
 	bound map[ssa.Value]poly
 	inl   string
+	// struct-typed parameters of an inlined helper (`func (qs quickSlow) times(other quickSlow) quickSlow`): the field
+	// of the argument, evaluated in the caller's context
+	boundStruct map[ssa.Value]func(field int, depth int) (poly, bool)
+	// series parameters of an inlined helper that stand for a kernel input, and index parameters that stand for the
+	// time loop's own index: a read `series.Get(idx)` inside the helper is then the kernel's input at this timestep
+	boundIn  map[ssa.Value]int
+	boundIdx map[ssa.Value]bool
+	inIdx    map[ssa.Value]int
+	atIndex  func(a ssa.Value, at ssa.Instruction) bool
 }
 
 func (cc *canonCtx) osym(v ssa.Value) string {
@@ -127,9 +136,10 @@ func (cc *canonCtx) osym(v ssa.Value) string {
 	return s
 }
 
-// inlineResult: the k-th result of a call of a module function with a single return statement, expanded in the
-// caller's terms. ok=false when the callee does not qualify.
-func (cc *canonCtx) inlineResult(call *ssa.Call, k int, depth int) (poly, bool) {
+// withCallee evaluates body in the context of a module helper with a single return statement called at `call`: the
+// helper's numeric parameters stand for the polynomials of the arguments, struct parameters for the argument's
+// fields, series and index parameters for the kernel's input and time index where the arguments are those.
+func (cc *canonCtx) withCallee(call *ssa.Call, depth int, body func(f *ssa.Function, ret *ssa.Return) (poly, bool)) (poly, bool) {
 	f := call.Common().StaticCallee()
 	if f == nil || f.Blocks == nil || !InModule(f) || call.Common().IsInvoke() || depth > 30 || strings.Count(cc.inl, "/") > 3 {
 		return nil, false
@@ -138,25 +148,189 @@ func (cc *canonCtx) inlineResult(call *ssa.Call, k int, depth int) (poly, bool) 
 		return nil, false
 	}
 	rets := returnsOf(f)
-	if len(rets) != 1 || k >= len(rets[0].Results) || len(f.Params) != len(call.Common().Args) {
+	if len(rets) != 1 || len(f.Params) != len(call.Common().Args) {
 		return nil, false
 	}
-	if b, ok := rets[0].Results[k].Type().Underlying().(*types.Basic); !ok || b.Info()&types.IsFloat == 0 {
-		return nil, false
+	type snap struct {
+		bound       map[ssa.Value]poly
+		boundStruct map[ssa.Value]func(int, int) (poly, bool)
+		boundIn     map[ssa.Value]int
+		boundIdx    map[ssa.Value]bool
+		inl, scope  string
+		subst       map[ssa.Value]ssa.Value
 	}
+	take := func() snap {
+		return snap{cc.bound, cc.boundStruct, cc.boundIn, cc.boundIdx, cc.inl, cc.scope, cc.subst}
+	}
+	put := func(c snap) {
+		cc.bound, cc.boundStruct, cc.boundIn, cc.boundIdx, cc.inl, cc.scope, cc.subst = c.bound, c.boundStruct, c.boundIn, c.boundIdx, c.inl, c.scope, c.subst
+	}
+	caller := take()
 	// arguments in the caller's context
 	args := map[ssa.Value]poly{}
+	structs := map[ssa.Value]func(int, int) (poly, bool){}
+	ins := map[ssa.Value]int{}
+	idxs := map[ssa.Value]bool{}
 	for i, prm := range f.Params {
-		if b, ok := prm.Type().Underlying().(*types.Basic); ok && b.Info()&types.IsNumeric != 0 {
-			args[prm] = cc.expand(call.Common().Args[i], depth+1)
+		arg := call.Common().Args[i]
+		t := prm.Type().Underlying()
+		if pt, ok := t.(*types.Pointer); ok {
+			t = pt.Elem().Underlying()
+		}
+		switch tt := t.(type) {
+		case *types.Basic:
+			if tt.Info()&types.IsInteger != 0 && cc.isTimeIndex(arg, call) {
+				idxs[prm] = true
+			}
+			if tt.Info()&types.IsNumeric != 0 {
+				args[prm] = cc.expand(arg, depth+1)
+			}
+		case *types.Struct:
+			arg := arg
+			structs[prm] = func(field int, d int) (poly, bool) {
+				cur := take()
+				put(caller)
+				r, ok := cc.fieldOf(arg, field, d+1)
+				put(cur)
+				return r, ok
+			}
+		case *types.Slice:
+			if cc.isTimeIndex(arg, call) {
+				idxs[prm] = true
+			}
+		default:
+			if k, ok := cc.inputSeries(arg); ok {
+				ins[prm] = k
+			}
 		}
 	}
-	saveB, saveI, saveS, saveSc := cc.bound, cc.inl, cc.subst, cc.scope
-	cc.bound, cc.subst, cc.scope = args, nil, ""
-	cc.inl = saveI + "/" + fmt.Sprintf("%s#%d", f.Name(), instrIndex(call)*1000+call.Block().Index)
-	r := cc.expand(rets[0].Results[k], depth+1)
-	cc.bound, cc.inl, cc.subst, cc.scope = saveB, saveI, saveS, saveSc
-	return r, true
+	cc.bound, cc.boundStruct, cc.boundIn, cc.boundIdx, cc.subst, cc.scope = args, structs, ins, idxs, nil, ""
+	cc.inl = caller.inl + "/" + fmt.Sprintf("%s#%d", f.Name(), instrIndex(call)*1000+call.Block().Index)
+	r, ok := body(f, rets[0])
+	put(caller)
+	return r, ok
+}
+
+// inputSeries: v is kernel input k (directly, or as a series parameter of the helper being inlined).
+func (cc *canonCtx) inputSeries(v ssa.Value) (int, bool) {
+	o := origin1(v)
+	if o == nil {
+		return 0, false
+	}
+	if cc.inl != "" {
+		k, ok := cc.boundIn[o]
+		return k, ok
+	}
+	if cc.subst != nil {
+		return 0, false
+	}
+	k, ok := cc.inIdx[o]
+	return k, ok
+}
+
+// isTimeIndex: v (an int or a one-element index vector) holds the time loop's own index at `at`.
+func (cc *canonCtx) isTimeIndex(v ssa.Value, at ssa.Instruction) bool {
+	if cc.inl != "" {
+		o := origin1(v)
+		return o != nil && cc.boundIdx[o]
+	}
+	if cc.subst != nil || cc.atIndex == nil {
+		return false
+	}
+	return cc.atIndex(v, at)
+}
+
+// inlineResult: the k-th result of a call of a module function with a single return statement, expanded in the
+// caller's terms. ok=false when the callee does not qualify.
+func (cc *canonCtx) inlineResult(call *ssa.Call, k int, depth int) (poly, bool) {
+	return cc.withCallee(call, depth, func(f *ssa.Function, ret *ssa.Return) (poly, bool) {
+		if k >= len(ret.Results) {
+			return nil, false
+		}
+		if b, ok := ret.Results[k].Type().Underlying().(*types.Basic); !ok || b.Info()&types.IsFloat == 0 {
+			return nil, false
+		}
+		return cc.expand(ret.Results[k], depth+1), true
+	})
+}
+
+// fieldOf: field `field` of the struct value sv (or of the struct sv points to), as a polynomial in the current
+// context: a struct parameter of the helper being inlined, the result of a helper that returns a struct, a local
+// struct assigned once (composite literal, spilled value receiver).
+func (cc *canonCtx) fieldOf(sv ssa.Value, field int, depth int) (poly, bool) {
+	if depth > 30 {
+		return nil, false
+	}
+	switch x := sv.(type) {
+	case *ssa.Parameter:
+		if fn := cc.boundStruct[x]; fn != nil {
+			return fn(field, depth)
+		}
+	case *ssa.Call:
+		if x.Common().Signature().Results().Len() != 1 {
+			return nil, false
+		}
+		return cc.withCallee(x, depth, func(f *ssa.Function, ret *ssa.Return) (poly, bool) {
+			return cc.fieldOf(ret.Results[0], field, depth+1)
+		})
+	case *ssa.Extract:
+		if call, ok := x.Tuple.(*ssa.Call); ok {
+			return cc.withCallee(call, depth, func(f *ssa.Function, ret *ssa.Return) (poly, bool) {
+				if x.Index >= len(ret.Results) {
+					return nil, false
+				}
+				return cc.fieldOf(ret.Results[x.Index], field, depth+1)
+			})
+		}
+	case *ssa.UnOp:
+		if a, ok := x.X.(*ssa.Alloc); ok && x.Op == token.MUL {
+			return cc.fieldOfAlloc(a, field, depth)
+		}
+	case *ssa.Alloc:
+		return cc.fieldOfAlloc(x, field, depth)
+	}
+	return nil, false
+}
+
+// fieldOfAlloc: the one value a field of a local struct is given (by a field store or by a store of the whole
+// struct); false when it is assigned more than once or the struct is handed to a callee.
+func (cc *canonCtx) fieldOfAlloc(a *ssa.Alloc, field int, depth int) (poly, bool) {
+	var vals, whole []ssa.Value
+	for _, ref := range refs(a) {
+		switch x := ref.(type) {
+		case *ssa.FieldAddr:
+			if x.Field != field {
+				continue
+			}
+			for _, r2 := range refs(x) {
+				switch y := r2.(type) {
+				case *ssa.Store:
+					if y.Addr == ssa.Value(x) {
+						vals = append(vals, y.Val)
+					}
+				case *ssa.UnOp:
+				default:
+					return nil, false
+				}
+			}
+		case *ssa.Store:
+			if x.Addr == ssa.Value(a) {
+				whole = append(whole, x.Val)
+			} else {
+				return nil, false
+			}
+		case *ssa.UnOp, *ssa.DebugRef:
+		default:
+			return nil, false
+		}
+	}
+	switch {
+	case len(vals) == 1 && len(whole) == 0:
+		return cc.expand(vals[0], depth+1), true
+	case len(vals) == 0 && len(whole) == 1:
+		return cc.fieldOf(whole[0], field, depth+1)
+	}
+	return nil, false
 }
 
 func (cc *canonCtx) expand(v ssa.Value, depth int) poly {
@@ -194,13 +368,42 @@ func (cc *canonCtx) expand(v ssa.Value, depth int) poly {
 			}
 		}
 	case *ssa.Call:
+		// inside an inlined helper: a read of a kernel input at the time loop's index
+		if cc.inl != "" {
+			if nm := callName(x.Common()); nm == "Get" || nm == "Get1" {
+				if rv := recvOf(x.Common()); rv != nil {
+					if k, ok := cc.inputSeries(rv); ok && cc.isTimeIndex(callArgs(x.Common())[0], x) {
+						return poly{fmt.Sprintf("in%d", k): 1}
+					}
+				}
+			}
+		}
 		if x.Common().Signature().Results().Len() == 1 {
 			if p, ok := cc.inlineResult(x, 0, depth); ok {
 				return p
 			}
 		}
+	case *ssa.Field:
+		if p, ok := cc.fieldOf(x.X, x.Field, depth+1); ok {
+			return p
+		}
 	case *ssa.UnOp:
 		if x.Op == token.MUL {
+			if fa, ok := x.X.(*ssa.FieldAddr); ok {
+				switch b := fa.X.(type) {
+				case *ssa.Alloc:
+					if p, ok := cc.fieldOfAlloc(b, fa.Field, depth+1); ok {
+						return p
+					}
+				case *ssa.Parameter:
+					// a field read through a pointer parameter of the helper being inlined, which the helper never assigns
+					if fn := cc.boundStruct[b]; fn != nil && !storesField(b, fa.Field) {
+						if p, ok := fn(fa.Field, depth+1); ok {
+							return p
+						}
+					}
+				}
+			}
 			// a variable of the enclosing function captured by a closure (`scale` inside the mapping function)
 			if _, isFree := x.X.(*ssa.FreeVar); isFree {
 				if vs := resolveCapturedLoad(x); len(vs) == 1 && vs[0] != ssa.Value(x) {
@@ -332,6 +535,7 @@ func checkIdentityTable(p *Program, r *Report, rule string, table map[string]ide
 		atLoopIndex := func(call ssa.CallInstruction) bool {
 			return atLoopIndexVal(callArgs(call.Common())[0], call)
 		}
+		cc.inIdx, cc.atIndex = inIdx, atLoopIndexVal
 		// canonical names for input reads
 		for _, c := range callsIn(k) {
 			cv, ok := c.(*ssa.Call)
@@ -490,6 +694,11 @@ func checkIdentityTable(p *Program, r *Report, rule string, table map[string]ide
 				}
 			}
 		}
+		// early returns: a return taken before the time loop leaves the zero-initialised outputs in place, which is the
+		// identity's value only where its right-hand side vanishes — under `scale == 0`, not under `scale <= 0`
+		if len(spec.outs) > 0 {
+			checkEarlyReturns(p, r, rule, key, m, k, cc, spec, loops)
+		}
 		// per-output expectations
 		for oi, alts := range spec.outs {
 			ws := writes[oi]
@@ -643,4 +852,159 @@ func mapHelperShape(p *Program, h *ssa.Function) (a, b, f int, ok bool) {
 		return 0, 0, 0, false
 	}
 	return a, b, f, true
+}
+
+// storesField: the function assigns field `field` through its pointer parameter prm.
+func storesField(prm *ssa.Parameter, field int) bool {
+	for _, ref := range refs(prm) {
+		if fa, ok := ref.(*ssa.FieldAddr); ok && fa.Field == field {
+			for _, r2 := range refs(fa) {
+				if st, ok := r2.(*ssa.Store); ok && st.Addr == ssa.Value(fa) {
+					return true
+				}
+			}
+		}
+	}
+	return false
+}
+
+// checkEarlyReturns: every return of the kernel that is not reached through the time loop (or through the call of
+// the mapping helper that holds it) is judged path by path: the equalities `parameter == 0` that hold on the way
+// must make one allowed value of every specified output vanish.
+func checkEarlyReturns(p *Program, r *Report, rule, key string, m *Model, k *ssa.Function, cc *canonCtx, spec identSpec, loops []*Loop) {
+	// where the timesteps happen: the loop header, or the block calling the mapping helper
+	var work *ssa.BasicBlock
+	if len(loops) == 1 {
+		work = loops[0].Header
+	} else {
+		for _, c := range callsIn(k) {
+			if h := c.Common().StaticCallee(); h != nil && h.Blocks != nil && InModule(h) && len(h.Params) == len(c.Common().Args) {
+				if _, _, _, ok := mapHelperShape(p, h); ok {
+					work = c.Block()
+				}
+			}
+		}
+	}
+	if work == nil {
+		return
+	}
+	zeroParam := func(g Guard) (string, bool, bool) { // symbol, isEqualityWithZero, judged
+		bo, ok := g.Cond.(*ssa.BinOp)
+		if !ok {
+			return "", false, false
+		}
+		x, y := bo.X, bo.Y
+		if _, isC := x.(*ssa.Const); isC {
+			x, y = y, x
+		}
+		c, isC := y.(*ssa.Const)
+		name, named := cc.names[x]
+		if !named {
+			if o := origin1(x); o != nil {
+				name, named = cc.names[o]
+			}
+		}
+		if !isC || !named || !strings.HasPrefix(name, "p") || c.Value == nil {
+			return "", false, false
+		}
+		zero := c.Float64() == 0
+		eq := bo.Op == token.EQL && g.Val || bo.Op == token.NEQ && !g.Val
+		return name, eq && zero, true
+	}
+	n := 0
+	for _, ret := range returnsOf(k) {
+		rb := ret.Block()
+		if rb == work || work.Dominates(rb) {
+			continue
+		}
+		// the ways into the return: one per predecessor (a disjunction `a == 0 || b == 0` arrives by two edges)
+		type way struct{ guards []Guard }
+		var ways []way
+		if len(rb.Preds) <= 1 {
+			ways = append(ways, way{guardsAt(rb)})
+		} else {
+			for _, pr := range rb.Preds {
+				gs := guardsAt(pr)
+				if iff, ok := pr.Instrs[len(pr.Instrs)-1].(*ssa.If); ok && pr.Succs[0] != pr.Succs[1] {
+					c, v := normCond(iff.Cond, pr.Succs[0] == rb)
+					gs = append(gs, Guard{Cond: c, Val: v, If: iff})
+				}
+				ways = append(ways, way{gs})
+			}
+		}
+		for wi, w := range ways {
+			zero := map[string]bool{}
+			open := ""
+			vacuous := false
+			for _, g := range w.guards {
+				// no timesteps at all: nothing to compare
+				if dependsOn(g.Cond, func(x ssa.Value) bool {
+					c, ok := x.(*ssa.Call)
+					if !ok {
+						return false
+					}
+					nm := callName(c.Common())
+					return nm == "Len1" || nm == "Len" || nm == "Len2" || nm == "Len3"
+				}, map[ssa.Value]bool{}) {
+					vacuous = true
+				}
+				name, eqZero, judged := zeroParam(g)
+				if !judged {
+					continue
+				}
+				if eqZero {
+					zero[name] = true
+				} else if bo, ok := g.Cond.(*ssa.BinOp); ok {
+					open = fmt.Sprintf("%s %s …", name, bo.Op)
+				}
+			}
+			if vacuous {
+				continue
+			}
+			n++
+			okey := fmt.Sprintf("%s:early-return#%d.%d", key, n, wi)
+			var bad []string
+			var ois []int
+			for oi := range spec.outs {
+				ois = append(ois, oi)
+			}
+			sort.Ints(ois)
+			for _, oi := range ois {
+				vanishes := false
+				for _, alt := range spec.outs[oi] {
+					pl := parsePoly(alt)
+					rest := 0
+					for mono, c := range pl {
+						if c == 0 {
+							continue
+						}
+						dead := false
+						for _, sym := range strings.Split(mono, "*") {
+							if zero[sym] {
+								dead = true
+							}
+						}
+						if !dead && mono != "" || mono == "" && c != 0 {
+							rest++
+						}
+					}
+					if rest == 0 {
+						vanishes = true
+					}
+				}
+				if !vanishes && oi < len(m.Outputs) {
+					bad = append(bad, m.Outputs[oi])
+				}
+			}
+			if len(bad) > 0 {
+				why := "no condition on the way makes the expected value zero"
+				if open != "" {
+					why = "the way in is guarded by `" + open + "`, a range of parameter values over which the expected value is not zero"
+				}
+				r.Fail(rule, okey, p.Pos(ret.Pos()), fmt.Sprintf("%s (%s): a return before the time loop leaves output %s at its initial zero, but %s: the identity fails for every timestep of such a run", m.Name, spec.note, strings.Join(bad, ", "), why))
+			} else {
+				r.OK(rule, fmt.Sprintf("%s: a return before the time loop is taken only where the specified outputs are identically zero", key))
+			}
+		}
+	}
 }
